@@ -122,6 +122,13 @@ def run(ctx):
     # the receive side: malformed first requests through the real xds.Receive / receiveDelta on a real DiscoveryServer,
     # every forwarded request then through the real processRequest / processDeltaRequest (crash freedom)
     ctx.diff_stream("recv", ctx.n(600, 6000), oracle=oracle)
+    ctx.extra["single_step_enumeration"] = {
+        "sotw": "10 types x (no watch | names within {a,b} x nonce sent x AlwaysRespond x LastError, CDS also with/without an EDS watch) "
+                "x (names within {a,b} + a duplicate) x nonce {empty,current,stale} x {request,NACK}: complete in both tiers",
+        "delta": "quick: types EDS, WDS, names within {a}, subscribe / unsubscribe within {a,*}; thorough: EDS, CDS, WDS, WL, ECDS, names within "
+                 "{a,b}, subscribe / unsubscribe within {a,b,*}, with/without initial_resource_versions",
+        "cases_this_run": {k: ctx.streams.get(k, {}).get("cases", 0) for k in ("enum", "denum")},
+    }
     # the oracle also runs on every generated case (second line, independent of the model)
     for stream in ("sotw", "delta", "warm", "loop", "proc", "dproc", "recv", "dloop", "enum", "denum"):
         g = os.path.join(ctx.work, "%s.gen.ops" % stream)
